@@ -5,7 +5,7 @@ import random
 import yaml
 
 from .. import core, yamlapi
-from ..gen import events as EV
+from ..gen import events as EV, strings as S
 from ..ref import evgrammar
 
 ID = 'C05'
@@ -38,7 +38,33 @@ def plan(tier, seed):
     nex = 5 if q else 14
     specs += [{'kind': 'ill', 'shard': i, 'of': nex, 'maxlen': 5 if q else 6, 'cext': 'plain'} for i in range(nex)]
     specs.append({'kind': 'faults', 'shard': 0, 'cext': 'plain'})
+    specs += [{'kind': 'pos', 'shard': i, 'of': 2, 'cext': 'plain'} for i in range(2)]
     return specs
+
+
+def pos_streams(shard, of):
+    """An unusual character at every position where the emitter's choice of style meets a lexical decision of the reader:
+    first character of the stream (root scalar, first key, first item), start / end of keys, values and items, alone;
+    in the first and in a later document; every requested style; with and without allow_unicode."""
+    k = 0
+    sc = lambda v, st: ['SC', None, None, [True, True], v, st]
+    for ch in S.ODD + S.PYSPACE + ['-', '?', ':', '#', '%', '!', '&', '*', '|', '>', "'", '"', '@', '`', ',', '[', '{', ' ', '...', '---', '<<', '=', '~']:
+        for v in (ch + 'x', ch, 'x' + ch, ch + ' x', 'x ' + ch + ' y', ch + '\nx', 'x\n' + ch, 'x' + ch + 'y'):
+            for st in (None, "'", '"', '|', '>'):
+                shapes = [[sc(v, st)],
+                          [['MS', None, None, True, False], sc(v, st), sc(v, st), sc('k2', None), sc(v, st), ['ME']],
+                          [['QS', None, None, True, False], sc(v, st), sc('b', None), sc(v, st), ['QE']],
+                          [['QS', None, None, True, True], sc(v, st), ['MS', None, None, True, True], sc(v, st), sc(v, st), ['ME'], ['QE']]]
+                for si, body in enumerate(shapes):
+                    for au in (None, True):
+                        for second in (False, True):
+                            k += 1
+                            if k % of != shard or (second and si not in (0, 1)):
+                                continue
+                            docs = [['DS', False, None, None]] + body + [['DE', False]]
+                            if second:
+                                docs = [['DS', False, None, None], sc('first', None), ['DE', False]] + docs
+                            yield [['SS']] + docs + [['SE']], ({'allow_unicode': True} if au else {})
 
 
 # ---------------------------------------------------------------------------------------------
@@ -337,6 +363,13 @@ def run(spec, ctx):
                 n += 1
         ctx.stat('exhaustive_shards_done')
         ctx.sample({'class': 'all event-class sequences', 'maxlen': spec['maxlen']})
+    elif k == 'pos':
+        n = 0
+        for s2, opts in pos_streams(spec['shard'], spec['of']):
+            ctx.case(core.h64(repr(s2), repr(opts)), True, ['pos'])
+            wf_case(s2, opts, ctx)
+            n += 1
+        ctx.sample({'class': 'unusual character at every lexically decisive position', 'streams': n})
     else:
         faults(ctx)
 
